@@ -52,6 +52,9 @@ def configs(quick):
     c.append(dict(name="screening_seeded", dev="ring", lam=0.5, screening=True, seeded=True, adaptive=False, T=0.04))
     # a mesh with more than a thousand sites (anything done in blocks or pools only above a size threshold), short run
     c.append(dict(name="large_mesh", dev="ring", mel=0.16, adaptive=False, dt=1e-3, T=0.004))
+    # a run shorter than the save interval (only the first and the last state are kept): the per-step record buffer is
+    # never filled, so nothing may be read from its unused tail
+    c.append(dict(name="shorter_than_save_interval", dev="bar", current=2.0, adaptive=True, T=0.2, save_every=1000))
     if not quick:
         c += [dict(name="timedep_current_adaptive", dev="bar_hole", timedep_current=True, adaptive=True, T=0.2),
               dict(name="screening_fixed", dev="union", lam=0.5, screening=True, adaptive=False, T=0.06),
@@ -64,6 +67,7 @@ def launch(cfg, threads, out):
     env = dict(os.environ)
     env["NUMBA_NUM_THREADS"] = str(threads)
     env["PYTHONHASHSEED"] = str(threads)  # vary what must not matter
+    env["MALLOC_PERTURB_"] = str(37 + 11 * threads + (1 if out else 0))  # ... the content of freshly allocated / freed memory included (glibc)
     c = dict(cfg, out=out)
     p = subprocess.run([sys.executable, os.path.join(os.path.dirname(__file__), "c09_worker.py"), json.dumps(c)], env=env, stdout=subprocess.PIPE,
                        stderr=subprocess.PIPE, text=True, timeout=1800)
